@@ -187,6 +187,11 @@ func (br *BlockReader) SkipNext() (*BlockMetadata, error) {
 
 	cidSize, c, err := cid.CidFromReader(io.LimitReader(br.r, int64(sectionSize)))
 	if err != nil {
+		if err == io.EOF {
+			// The length prefix announced a section but not a single byte of it is there:
+			// a truncated archive, not a clean end.
+			err = io.ErrUnexpectedEOF
+		}
 		return nil, err
 	}
 
